@@ -9,6 +9,7 @@ package main
 // elements in order, checksum lines as tuples tagged with the right algorithm.
 
 import (
+	"golang.org/x/tools/go/ssa"
 	"fmt"
 	"go/types"
 	"sort"
@@ -34,7 +35,9 @@ func modelFor(name, kind string, single bool) modelField {
 		// syntax allows them), nothing is folded
 		switch {
 		case kind == kAL:
-			return modelField{kind, " amd64", []string{"amd64"}}
+			return modelField{kind, " kfreebsd-amd64", []string{"kfreebsd-amd64"}}
+		case kind == kA1:
+			return modelField{kind, " hurd-i386", []string{"hurd-i386"}}
 		case kind == kR:
 			return modelField{kind, " foo", []string{"foo"}}
 		case kind == kLc:
@@ -64,7 +67,7 @@ func modelFor(name, kind string, single bool) modelField {
 	case kind == kA1:
 		return modelField{kind, " amd64", []string{"amd64"}}
 	case kind == kAL:
-		return modelField{kind, " amd64 i386\n armhf", []string{"amd64", "i386", "armhf"}}
+		return modelField{kind, " amd64 linux-any\n armhf gnu-kfreebsd-i386 all", []string{"amd64", "linux-any", "armhf", "gnu-kfreebsd-i386", "all"}}
 	case kind == kR:
 		return modelField{kind, " foo (>= 1.0),\n bar | baz", []string{"foo (>= 1.0), bar | baz"}}
 	case kind == kLc:
@@ -180,6 +183,22 @@ func c10Doc(p *Prog, rp *Report) {
 		}
 		// direct decodes of the custom types, for the expected values
 		direct := func(t *types.Named, s string) (string, string) {
+			// "as their parsed forms": where the library has a parse function for the type, that is the reference
+			// (the decoder goes through UnmarshalControl, which must agree with it)
+			if pf := map[string]*ssa.Function{"Version": p.Func("version", "Parse"), "Arch": p.Func("dependency", "ParseArch"), "Dependency": p.Func("dependency", "Parse")}[t.Obj().Name()]; pf != nil && pf.Signature.Params().Len() == 1 && pf.Signature.Results().Len() == 2 {
+				ret, why := run.call(pf, s)
+				if why != "" {
+					return "", why
+				}
+				tv, ok := ret.(*TupleV)
+				if !ok || len(tv.E) != 2 {
+					return "", "undecided: unexpected result shape of " + fname(pf)
+				}
+				if _, errNil := tv.E[1].(nilV); !errNil {
+					return "", "undecided: " + fname(pf) + " rejects the model text " + s
+				}
+				return strings.TrimPrefix(deepRender(run.st, tv.E[0], 0), "&"), ""
+			}
 			fn := p.Method(t.Obj().Pkg().Name(), t.Obj().Name(), "UnmarshalControl")
 			if fn == nil {
 				return "", "undecided: no UnmarshalControl on " + t.String()
